@@ -19,6 +19,7 @@ type MCDriver struct {
 	Quick    int // deviation bound
 	Thorough int
 	MapOrder bool
+	Delay    bool // delay bounding instead of preemption bounding (see vsync.Session.DelayBound)
 }
 
 // MCCheck describes a check built on the stateless explorer.
@@ -67,7 +68,7 @@ func RunMC(c MCCheck, tier string) int {
 					caps += fmt.Sprintf("%s: deadline before bound %d; ", key, b)
 					break
 				}
-				t := mc.Explore(pool, d.Name, p, b, d.MapOrder, deadline)
+				t := mc.Explore(pool, d.Name, p, b, d.MapOrder, d.Delay, deadline)
 				last = t
 				errs = append(errs, t.Errs...)
 				stop := false
@@ -79,12 +80,12 @@ func RunMC(c MCCheck, tier string) int {
 					// re-execute twice: must fail identically
 					same := 0
 					for k := 0; k < 2; k++ {
-						if r := replayMC(pool, v); r != nil && r.Msg == v.Msg {
+						if r := replayMC(pool, v, d.MapOrder, d.Delay); r != nil && r.Msg == v.Msg {
 							same++
 						}
 					}
 					art := map[string]interface{}{"property": c.Prop, "engine": "mc", "driver": v.Driver, "param": v.Param, "choices": v.Choices,
-						"map_order": d.MapOrder, "verdict": v.Verdict, "msg": v.Msg, "deviations": v.Devs, "reproduced": same}
+						"map_order": d.MapOrder, "delay_bound": d.Delay, "verdict": v.Verdict, "msg": v.Msg, "deviations": v.Devs, "reproduced": same}
 					path := evid.Replay(c.Prop, art)
 					if same < 2 {
 						fmt.Printf("UNSTABLE: property=%s failure did not reproduce identically (%d/2): %s\n", c.Prop, same, path)
@@ -165,8 +166,8 @@ func prefixEach(p string, l []string) []string {
 	return r
 }
 
-func replayMC(pool *par.Pool, v mc.Violation) *mc.Violation {
-	job, _ := json.Marshal(mc.Job{Driver: v.Driver, Param: v.Param, Prefix: v.Choices, Replay: true})
+func replayMC(pool *par.Pool, v mc.Violation, mapOrder, delay bool) *mc.Violation {
+	job, _ := json.Marshal(mc.Job{Driver: v.Driver, Param: v.Param, Prefix: v.Choices, Replay: true, MapOrder: mapOrder, Delay: delay})
 	var out *mc.Violation
 	_ = pool.Run([][]byte{job}, func(r par.Result) {
 		if r.Died || r.Hung {
@@ -187,7 +188,8 @@ func ReplayMC(art map[string]interface{}) int {
 		choices = append(choices, int(c.(float64)))
 	}
 	mo, _ := art["map_order"].(bool)
-	res := mc.Work(mc.Job{Driver: art["driver"].(string), Param: art["param"].(string), Prefix: choices, Replay: true, MapOrder: mo})
+	dl, _ := art["delay_bound"].(bool)
+	res := mc.Work(mc.Job{Driver: art["driver"].(string), Param: art["param"].(string), Prefix: choices, Replay: true, MapOrder: mo, Delay: dl})
 	if res.Err != "" {
 		fmt.Println("harness error:", res.Err)
 		return 2
